@@ -2,6 +2,7 @@ SPECIFICATION Spec
 CONSTANTS FullLen = 4
           SparseLen = 8
           PairLen = 4
+          LongLens = {126, 127, 128, 129, 130, 252, 253, 254, 255, 256, 257, 258, 259, 260, 508, 509, 510, 511, 512, 513, 514, 515, 516, 1022, 1023, 1024, 1025, 1026}
 INVARIANTS TypeOK UnreadIntact WriteBehindRead PairsInRange InPlaceSame
            KRoundTrip KEncCanonical KRightInverse KFlagBits KKeybytesRoundTrip KLeafExtDistinct
            Emit
